@@ -7,7 +7,7 @@ from ..elfread import Elf
 from . import c02
 
 NEEDS_WILD = True
-LEAN_MODULES = ["WildModel.Props.C37"]
+LEAN_MODULES = ["WildModel.Props.C37", "WildModel.Props.C37Mentions"]
 THEOREMS = [
     "Wild.Link.needed_sorted_nodup",
     "Wild.Link.non_as_needed_listed",
@@ -18,6 +18,9 @@ THEOREMS = [
     "Wild.Link.candidates_head",
     "Wild.Link.resolve_first_dynamic",
     "Wild.Link.as_needed_spec_partial",
+    "Wild.Mentions.loadInputs_paths",
+    "Wild.Mentions.loadInputs_flag",
+    "Wild.Mentions.old_first_mention_witness",
 ]
 LEVEL = "proof"
 TECHNIQUE = "Lean 4 theorems over the M-Link loaded-set model (exact characterisation of DT_NEEDED) + whole-link differential correspondence; GNU ld / lld as oracle"
@@ -25,6 +28,7 @@ TRUSTED = [
     "model lean/WildModel/Model/Needed.lean + Link.lean (DT_NEEDED = loaded shared objects in command-line order), tied by whole-link correspondence on generated link lines "
     "mixing --as-needed/--no-as-needed regions, weak/non-weak references from objects and archive members",
     "GNU ld 2.40 and ld.lld 14 as oracles where they agree",
+    "the de-duplication loop of FileLoader::load_inputs for files named more than once is modelled in Props/C37Mentions.lean (loadInputs) and tied by the second-mention cases of the whole-link correspondence (the twice-named library is given to the M-Link model as one file that is as-needed iff all mentions are: loadInputs_flag)",
 ]
 RULE = "random link inputs with 1-4 shared objects (as-needed or not), objects and archive members referencing them weakly / non-weakly; in a third of the inputs one shared object is named a second time under a random --as-needed state; non-trivial = at least one as-needed library; distinct by request line"
 ASSUMPTIONS = ["a shared object appears at most twice on the command line; sonames are distinct", "a twice-named library is modelled as one file at its first position that is as-needed only if both mentions are (GNU ld / lld behaviour)"]
@@ -99,8 +103,16 @@ def run(ctx):
             a = r.chance(1, 2)
             line = line + ["--as-needed" if a else "--no-as-needed", os.path.join(d, f"libs{k}.so")]
             ctx.count("second-mention", f"first={'as-needed' if files[k].get('as_needed') else 'no-as-needed'},second={'as-needed' if a else 'no-as-needed'}")
+            # the model of the de-duplication loop (Model/Mentions.lean loadInputs) says which request each library ends up with
+            ments = [(j, bool(f.get("as_needed"))) for j, f in enumerate(files) if f["kind"] == "so"] + [(k, a)]
+            ans = ctx.model_eval(["mentions " + " ".join(f"{j}:{1 if b else 0}" for j, b in ments)])[0]
+            merged = [tuple(int(v) for v in t.split(":")) for t in ans[2:].split(",")] if ans.startswith("M=") else None
+            if merged is None or [j for j, _ in merged] != sos:
+                ctx.broken.append(f"mentions model: unexpected answer {ans!r} for {ments}")
+                continue
             files = [dict(f) for f in files]
-            files[k]["as_needed"] = bool(files[k].get("as_needed")) and a
+            for j, b in merged:
+                files[j]["as_needed"] = bool(b)
         out = os.path.join(d, "out.wild")
         rc, o, e = c02.run_linker("wild", d, line, True, out, threads=r.choice([1, 4]))
         if rc != 0:
